@@ -127,6 +127,27 @@ def c09_queries():
     return qs
 
 
+def part_shapes(b):
+    """class of a behaviour = how the time ranges of its write batches (= parts, when every batch is flushed on its own)
+    relate to each other: for every pair in (min, max) order D(isjoint) T(ouching) N(ested) O(verlapping).  The part
+    scanners group, prune and merge parts by these ranges."""
+    spans = []
+    for st in b[1:]:
+        op = st['last']
+        if op.get('op') == 'write':
+            ts = [r['t'] for r in op['rows']]
+            spans.append((min(ts), max(ts)))
+    if len(spans) < 2:
+        return None
+    spans.sort()
+    rel = []
+    for i in range(len(spans)):
+        for j in range(i + 1, len(spans)):
+            a, bb = spans[i], spans[j]
+            rel.append('D' if a[1] < bb[0] else 'T' if a[1] == bb[0] and bb[1] > a[1] else 'N' if bb[1] <= a[1] else 'O')
+    return ''.join(rel)
+
+
 def c09(c):
     """ordered by time ASC/DESC x offset x limit (and, in the harness, the same windows ordered by the inverted index
     rules on a and b); elements sharing a timestamp / sort key may come in any order"""
@@ -135,4 +156,43 @@ def c09(c):
              sims=50 if c.quick else 500, simops=12, queries=c09_queries(), index='inverted', sim=dict(maxrows=3, maxtotal=9)),
         _fam(name='stream-order-window-noindex', series=S, times=T, maxrows=1, maxtotal=3, maxops=3,
              sims=40 if c.quick else 300, simops=12, queries=c09_queries(), index='none', sim=dict(maxrows=3, maxtotal=9)),
+        # one element per batch, every batch flushed on its own: file parts whose time ranges are pairwise disjoint or
+        # identical (the scanner walks time-disjoint groups of parts one after the other); every path of the graph
+        _fam(name='stream-order-disjoint-parts', series=[1, 2], times=T, maxrows=1, maxtotal=3, maxops=7, graphops=7,
+             sims=0, simops=8, script=['write', 'flush', 'write', 'flush', 'write', 'flush', 'queryall'],
+             queries=c09_queries(), index='none'),
+        # three file parts of up to two elements over four timestamps: all shapes of nested / overlapping / disjoint /
+        # touching time ranges (chosen among many -simulate behaviours by part_shapes)
+        _fam(name='stream-order-part-shapes', series=[1, 2], times=[1, 2], maxrows=1, maxtotal=3, maxops=7,
+             sims=3000 if c.quick else 12000, simops=7, script=['write', 'flush', 'write', 'flush', 'write', 'flush', 'queryall'],
+             queries=c09_queries4(), index='none', select=part_shapes, per_class=2 if c.quick else 8,
+             sim=dict(times=[1, 2, 3, 4], maxrows=2, maxtotal=6)),
+    ]
+
+
+def c09_queries4():
+    qs = []
+    for asc in (True, False):
+        for off, lim in ((0, 0), (0, 2), (1, 3), (3, 2)):
+            qs.append(query(1, 4, S, crit('one', leaf()), 'time', asc, off, lim))
+        qs.append(query(2, 4, [1, 2], crit('one', leaf('ge', 'a', (1,))), 'time', asc, 0, 3))
+    return qs
+
+
+
+def c15(c):
+    """families run once per pipeline (row / vectorized / vectorized with batch size 2) by C15"""
+    crit_q = c08_queries()
+    crit_q = crit_q[::3]        # a third of the criteria queries per configuration (C08 runs all of them on the default pipeline)
+    return [
+        _fam(name='stream-part-shapes', series=[1, 2], times=[1, 2], maxrows=1, maxtotal=3, maxops=7,
+             sims=2000 if c.quick else 8000, simops=7, script=['write', 'flush', 'write', 'flush', 'write', 'flush', 'queryall'],
+             queries=c09_queries4(), index='none', select=part_shapes, per_class=1 if c.quick else 4,
+             sim=dict(times=[1, 2, 3, 4], maxrows=2, maxtotal=6)),
+        _fam(name='stream-order-inverted', series=S, times=T, maxrows=1, maxtotal=3, maxops=3,
+             sims=15 if c.quick else 200, simops=12, queries=c09_queries(), index='inverted', sim=dict(maxrows=3, maxtotal=9)),
+        _fam(name='stream-criteria-none', series=S, times=T, maxrows=1, maxtotal=3, maxops=3,
+             sims=12 if c.quick else 150, simops=11, queries=crit_q, index='none', sim=dict(maxrows=3, maxtotal=8)),
+        _fam(name='stream-criteria-skipping', series=S, times=T, maxrows=1, maxtotal=3, maxops=3,
+             sims=12 if c.quick else 150, simops=11, queries=crit_q, index='skipping', sim=dict(maxrows=3, maxtotal=8)),
     ]
